@@ -43,9 +43,9 @@ var (
 		AbbreviatedKey:     compare.AbbreviatedKeyDisableSlash,
 		FormatKey:          pebble.DefaultComparer.FormatKey,
 		FormatValue:        pebble.DefaultComparer.FormatValue,
-		Separator:          pebble.DefaultComparer.Separator,
+		Separator:          compare.SeparatorWithSlash,
 		Split:              pebble.DefaultComparer.Split,
-		Successor:          pebble.DefaultComparer.Successor,
+		Successor:          compare.SuccessorWithSlash,
 		ImmediateSuccessor: pebble.DefaultComparer.ImmediateSuccessor,
 		Name:               "oxia-slash-spans",
 	}
